@@ -265,9 +265,11 @@ def check_header_tables(ctx, facts):
             ctx.violate("C01.2", "floor", "no header decode reachable from " + fn, None, None, "%s neither contains nor calls a Metadata header decode: the decoder rules would pass vacuously" % fn)
     # stride: every place that steps over an entry uses PREFIX_META_SIZE + read_size
     n_stride = 0
+    per_fn = {}
     for fn in ("block::Block::read", "batch_read_for_topic"):
         b = facts.body(fn)
         F = common.short_fn(b.name)
+        per_fn[F] = 0
         for site, st in b.assigns():
             rv = st["rv"]
             if rv["k"] == "bin" and rv["op"] in ("AddWithOverflow", "Add"):
@@ -279,12 +281,15 @@ def check_header_tables(ctx, facts):
                     isrs = lambda x: isinstance(x, tuple) and x and x[0] == "field" and x[3] == "read_size"
                     if (ka is not None and isrs(c)) or (kc is not None and isrs(a)):
                         n_stride += 1
+                        per_fn[F] += 1
                         k = ka if ka is not None else kc
                         if k == prefix:
                             ctx.ok("C01.2", F, "entry stride = PREFIX_META_SIZE + read_size", b.relfile, st["line"])
                         else:
                             ctx.violate("C01.2", F, "entry-stride", b.relfile, st["line"], "entry stride is %d + read_size, encoders write PREFIX_META_SIZE (%d) + len(data)" % (k, prefix))
-    ctx.floor("C01.2", "entry stride computations", n_stride, 5)
+    # each of the two readers steps over entries at least once (how often is a matter of code shape)
+    for F_, k_ in per_fn.items():
+        ctx.floor("C01.2", "entry stride computations in " + F_, k_, 1)
 
 
 def check_checksum_gate(ctx, facts):
@@ -353,7 +358,7 @@ def check_seal_fold(ctx, facts):
         p = st["place"]
         if p["p"] and isinstance(p["p"][-1], dict) and p["p"][-1].get("n") in stores and str(p["p"][-1].get("o", "")).endswith("ColReaderInfo") and st["rv"]["k"] in ("use", "cast"):
             stores[p["p"][-1]["n"]].append((site, show(strip_refs(expr(b, st["rv"]["op"])), 8)))
-    ctx.floor("C01.5", "pushes of the sealed block onto the chain", len(pushes), 2)
+    ctx.floor("C01.5", "pushes of the sealed block onto the chain", len(pushes), 1)
     for c in pushes:
         arg = op_local(b.resolve_copy(c.node["args"][1]))
         src = show(strip_refs(expr(b, c.node["args"][1])), 4)
